@@ -6,6 +6,7 @@
 //  file LICENSE_1_0.txt or copy at http://www.boost.org/LICENSE_1_0.txt)
 
 #include <pika/assert.hpp>
+#include <pika/config/verif_hooks.hpp>
 #include <pika/execution_base/this_thread.hpp>
 #include <pika/logging.hpp>
 #include <pika/modules/errors.hpp>
@@ -78,6 +79,7 @@ namespace pika::detail {
             }
 
             bool not_empty = !queue_.empty();
+            PIKA_VERIF_POINT(::pika::verif::cv_notify_one, this);
             ctx.resume();
             return not_empty;
         }
@@ -106,6 +108,7 @@ namespace pika::detail {
             auto ctx = qe.ctx_;
             qe.ctx_.reset();
             queue.pop_front();
+            PIKA_VERIF_POINT(::pika::verif::cv_notify_all, this);
             ctx.resume();
         }
 
@@ -133,6 +136,7 @@ namespace pika::detail {
         {
             // suspend this thread
             ::pika::detail::unlock_guard<std::unique_lock<mutex_type>> ul(lock);
+            PIKA_VERIF_POINT(::pika::verif::cv_wait_enqueued, this);
             this_ctx.suspend();
         }
 
@@ -155,6 +159,7 @@ namespace pika::detail {
         {
             // suspend this thread
             ::pika::detail::unlock_guard<std::unique_lock<mutex_type>> ul(lock);
+            PIKA_VERIF_POINT(::pika::verif::cv_wait_timed_enqueued, this);
             this_ctx.sleep_until(abs_time.value());
         }
 
